@@ -1,0 +1,194 @@
+//go:build verif
+
+// Machine-checked contracts for the App Engine proxy (read by /verif/bin/gvc; comment-only, adds no declarations).
+package main
+
+// ---- who may act as an agent (C17) ----
+//@ func checkBackendID props(C17,C07)
+//@   requires s != nil && r != nil
+//@   assigns nothing
+//@   ghost asked bool = false
+//@   ghost allowed bool = false
+//@   call (types.Store).IsBackendUserAllowed
+//@     assert[C17:caller-identity-against-named-backend] !asked && oauthUser != nil && arg2 == oauthUser.Email && arg3 == hget(r.Header, "X-Inverting-Proxy-Backend-ID") && arg3 != ""
+//@     do asked = true
+//@     do allowed = ret0 && ret1 == nil
+//@   ensures[C17:validated-id-is-the-named-and-allowed-one] r1 == nil ==> r0 != "" && r0 == hget(r.Header, "X-Inverting-Proxy-Backend-ID") && asked && allowed
+//@   ensures[C17:no-id-on-rejection] r1 != nil ==> r0 == ""
+
+//@ func parseResponse props(C17,C19,C07)
+//@   requires r != nil && r.Body != nil
+//@   assigns ghost rdPos, ghost rdCalls
+//@   ensures[C19:response-under-validated-backend-and-named-request] r1 == nil ==> r0 != nil && r0.BackendID == backendID && r0.RequestID == hget(r.Header, "X-Inverting-Proxy-Request-ID") && r0.RequestID != ""
+//@   ensures[C19:nil-on-error] r1 != nil ==> r0 == nil
+
+//@ func waitForNextRequests props(C17,C07)
+//@   requires s != nil
+//@   assigns nothing
+//@   call (types.Store).ListPendingRequests
+//@     assert[C17:list-only-the-given-backend] arg2 == backendID
+
+//@ func waitForResponse props(C19,C07)
+//@   requires s != nil
+//@   assigns nothing
+//@   call (types.Store).ReadResponse
+//@     assert[C19:poll-own-response] arg2 == backendID && arg3 == requestID
+//@   ensures[C19:non-empty-response-or-error] r1 == nil ==> len(r0) > 0
+
+//@ func postRequest props(C19,C07)
+//@   requires s != nil
+//@   assigns nothing
+//@   call (types.Store).WriteRequest
+//@     assert[C19:store-request-under-its-ids] arg2 != nil && arg2.BackendID == backendID && arg2.RequestID == requestID && arg2.User == userEmail && arg2.Contents == requestBytes && !arg2.Completed
+
+// postResponse answers only a request that exists under the response's backend and request ids, records the response and
+// marks the request completed. Both store writes may fail and each failure is queued without anyone receiving yet,
+// so the error channel must have room for two values (otherwise the second sender blocks for ever).
+//@ func postResponse props(C19,C07)
+//@   requires s != nil && response != nil && errChan != nil && !closed(errChan)
+//@   assigns response.StartTime
+//@   requires[errchan-has-room-for-both-writers] chcap(errChan) - chlen(errChan) >= 2
+//@   ghost found bool = false
+//@   call (types.Store).ReadRequest
+//@     assert[C19:answer-only-an-existing-request-of-this-backend] arg2 == response.BackendID && arg3 == response.RequestID
+//@     do found = ret1 == nil
+//@     assume ret1 == nil ==> ret0 != nil
+//@   call (types.Store).WriteResponse
+//@     assert[C19:record-the-response] found && arg2 == response && response.BackendID == old(response.BackendID) && response.RequestID == old(response.RequestID) && response.Contents == old(response.Contents)
+//@   call (types.Store).WriteRequest
+//@     assert[C19:mark-request-completed] found && arg2 == request && request.Completed
+//@   send errChan
+//@     assert[C19:only-errors-are-queued] arg1 != nil
+
+// ---- the three agent endpoints: nothing happens before the caller is validated, and everything happens under the validated id (C17, C19) ----
+//@ func pendingHandler props(C17,C07)
+//@   requires s != nil && w != nil && r != nil && rwWrites[w] == 0
+//@   ghost valid bool = false
+//@   ghost vid string = ""
+//@   ghost checks int = 0
+//@   call checkBackendID
+//@     assert[C17:validate-first] checks == 0 && arg1 == s && arg2 == r
+//@     do checks = checks + 1
+//@     do valid = ret1 == nil
+//@     do vid = ret0
+//@   call waitForNextRequests
+//@     assert[C17:list-under-validated-id] valid && arg1 == s && arg2 == vid
+//@   call (types.Store).*
+//@     assert[C17:no-direct-store-access] false
+//@   ensures[C17:reject-with-401] !valid ==> rwStatus[w] == 401 && rwWrites[w] == 1
+
+//@ func requestHandler props(C17,C19,C07)
+//@   requires s != nil && w != nil && r != nil && rwWrites[w] == 0
+//@   ghost valid bool = false
+//@   ghost vid string = ""
+//@   ghost checks int = 0
+//@   ghost reads int = 0
+//@   call checkBackendID
+//@     assert[C17:validate-first] checks == 0 && reads == 0 && arg1 == s && arg2 == r
+//@     do checks = checks + 1
+//@     do valid = ret1 == nil
+//@     do vid = ret0
+//@   call (types.Store).ReadRequest
+//@     assert[C17:read-under-validated-id] valid && arg2 == vid
+//@     assert[C19:read-the-named-request] arg3 == hget(r.Header, "X-Inverting-Proxy-Request-ID") && arg3 != "" && reads == 0
+//@     do reads = reads + 1
+//@     assume ret1 == nil ==> ret0 != nil
+//@   call (http.ResponseWriter).Write
+//@     assert[C19:serve-the-stored-request-bytes] valid && reads == 1 && arg1 == request.Contents
+//@   ensures[C17:reject-with-401] !valid ==> rwStatus[w] == 401 && rwWrites[w] == 1 && reads == 0
+
+//@ func responseHandler props(C17,C19,C07)
+//@   requires s != nil && w != nil && r != nil && r.Body != nil && rwWrites[w] == 0
+//@   ghost valid bool = false
+//@   ghost vid string = ""
+//@   ghost checks int = 0
+//@   ghost posts int = 0
+//@   call checkBackendID
+//@     assert[C17:validate-first] checks == 0 && posts == 0 && arg1 == s && arg2 == r
+//@     do checks = checks + 1
+//@     do valid = ret1 == nil
+//@     do vid = ret0
+//@   call parseResponse
+//@     assert[C17:response-under-validated-id] valid && arg0 == vid && arg1 == r
+//@   call postResponse
+//@     assert[C17:post-under-validated-id] valid && posts == 0 && arg1 == s && arg2 == response && response.BackendID == vid
+//@     do posts = posts + 1
+//@   call (types.Store).*
+//@     assert[C17:no-direct-store-access] false
+//@   ensures[C17:reject-with-401] !valid ==> rwStatus[w] == 401 && rwWrites[w] == 1 && posts == 0
+
+//@ func handleAgentRequest props(C17,C07)
+//@   requires s != nil && w != nil && r != nil && r.URL != nil && r.Body != nil && rwWrites[w] == 0
+//@   ghost routed int = 0
+//@   call pendingHandler
+//@     assert[C17:route-pending] routed == 0 && hasPrefix(r.URL.Path, "/agent/pending") && arg1 == s && arg2 == w && arg3 == r
+//@     do routed = routed + 1
+//@   call requestHandler
+//@     assert[C17:route-request] routed == 0 && hasPrefix(r.URL.Path, "/agent/request") && arg1 == s && arg2 == w && arg3 == r
+//@     do routed = routed + 1
+//@   call responseHandler
+//@     assert[C17:route-response] routed == 0 && hasPrefix(r.URL.Path, "/agent/response") && arg1 == s && arg2 == w && arg3 == r
+//@     do routed = routed + 1
+//@   call (types.Store).*
+//@     assert[C17:no-direct-store-access] false
+//@   ensures[C17:unknown-agent-path-is-404] routed == 0 ==> rwStatus[w] == 404
+
+// ---- administration API (C17) ----
+//@ func isAdminRequest props(C17,C07)
+//@   assigns nothing
+//@   ghost isAdm bool = false
+//@   ghost oerr ref = nil
+//@   ghost ou *user.User = nil
+//@   call user.IsAdmin
+//@     do isAdm = ret0
+//@   call user.CurrentOAuth
+//@     do ou = ret0
+//@     do oerr = ret1
+//@   ensures[C17:admin-iff-appengine-or-oauth-admin] r0 <==> (isAdm || (oerr == nil && ou != nil && ou.Admin))
+
+//@ func handleAPIRequest props(C17,C07)
+//@   requires s != nil && w != nil && r != nil && r.URL != nil && r.Body != nil && rwWrites[w] == 0
+//@   ghost adminOK bool = false
+//@   ghost asked bool = false
+//@   call isAdminRequest
+//@     do asked = true
+//@     do adminOK = ret0
+//@   call listBackendsHandler
+//@     assert[C17:list-backends-admin-only] asked && adminOK
+//@   call addBackendHandler
+//@     assert[C17:add-backend-admin-only] asked && adminOK
+//@   call deleteBackendHandler
+//@     assert[C17:delete-backend-admin-only] asked && adminOK
+//@   call deleteHandler
+//@     assert[C17:cron-path-only] r.URL.Path == "/cron/delete"
+//@   call (types.Store).AddBackend
+//@     assert[C17:store-add-admin-only] asked && adminOK
+//@   call (types.Store).ListBackends
+//@     assert[C17:store-list-admin-only] asked && adminOK
+//@   call (types.Store).DeleteBackend
+//@     assert[C17:store-delete-admin-only] asked && adminOK
+//@   ensures[C17:non-admin-is-403] asked && !adminOK ==> rwStatus[w] == 403
+
+// ---- the end-user side (C17, C18, C19) ----
+//@ func proxyHandler props(C17,C18,C19,C07)
+//@   requires s != nil && w != nil && r != nil && r.URL != nil && rwWrites[w] == 0
+//@   ghost looked bool = false
+//@   ghost lerr bool = false
+//@   ghost bid string = ""
+//@   ghost stored bool = false
+//@   call (types.Store).LookupBackend
+//@     assert[C17:route-for-the-signed-in-user] !looked && currentUser != nil && arg2 == currentUser.Email && arg3 == r.URL.Path
+//@     do looked = true
+//@     do lerr = ret1 != nil
+//@     do bid = ret0
+//@   call http.NotFound
+//@     assert[C18:no-backend-is-404] looked && lerr
+//@   call postRequest
+//@     assert[C19:store-under-routed-backend-and-own-request-id] looked && !lerr && arg1 == s && arg2 == bid && arg3 == requestID && arg4 == currentUser.Email
+//@     do stored = true
+//@   call waitForResponse
+//@     assert[C19:wait-for-own-response] stored && arg1 == s && arg2 == bid && arg3 == requestID
+//@   call reportError
+//@     assert[C19:error-reports-carry-own-id] arg0 == w && arg1 == requestID
+//@   ensures[C17:anonymous-is-401] !looked ==> rwStatus[w] == 401 && rwWrites[w] == 1
+//@   ensures[C18:lookup-failure-is-404] looked && lerr ==> rwStatus[w] == 404 && !stored
